@@ -21,8 +21,9 @@ def place(m, T, gdecl, tdecl):
     """write the restricting feature m into template T / the global declarations; -> replacement system line or None"""
     system = None
     f = m["feat"]
+    FP = {"lit": "1.5", "var": "d", "cvar": "cd", "mvar": "md", "carr": "cda[1]", "expr": "cd + 0.0"}[m.get("fp", "lit")]
     if f == "fpcmp":
-        e = "x %s 1.5" % REL[m["op"]] if m["order"] == "cv" else "1.5 %s x" % MIR[m["op"]]
+        e = "x %s %s" % (REL[m["op"]], FP) if m["order"] == "cv" else "%s %s x" % (FP, MIR[m["op"]])
         e = positioned(e, m["pos"])
         if m["role"] == "guard":
             T["edges"][0]["guard"] = e
@@ -31,12 +32,12 @@ def place(m, T, gdecl, tdecl):
             if m["role"] != "invariant":          # the same invariant on an urgent / a committed location
                 T["locations"][0][m["role"].split("_")[1]] = True
     elif f == "fpassign":
-        tgt = {"clock": "x = 1.5", "double": "d = 1.5", "hybrid": "h = 1.5", "intvar": "i = 1"}[m["target"]]
+        tgt = {"clock": "x = " + FP, "double": "d = " + (FP if FP != "d" else "cd"), "hybrid": "h = " + FP, "intvar": "i = 1"}[m["target"]]
         items = ["i = %d" % k for k in range(m["len"])]
         items[m["idx"] - 1] = tgt
         T["edges"][0]["assign"] = ", ".join(items)
     elif f == "clockinit":
-        d = "clock c0 = %s;" % ("2.5" if m["val"] == "fp" else "2")
+        d = "clock c0 = %s;" % ((FP if "fp" in m else "2.5") if m["val"] == "fp" else "2")
         (gdecl if m["where"] == "global" else tdecl).append(d)
     elif f == "rate":
         clk = "x" if m["clock"] == "plain" else "h"
@@ -63,7 +64,7 @@ def place(m, T, gdecl, tdecl):
 def model_of(m, reorder=False):
     """abstract placement -> model dict. Template T carries template-scoped features; template U is clean.
     inst=FALSE: only U is listed in the system line."""
-    gdecl = ["int i; bool b; double d;", "clock x; hybrid clock h;"]
+    gdecl = ["int i; bool b; double d; const double cd = 1.5; meta double md; const double cda[2] = {0.5, 1.5};", "clock x; hybrid clock h;"]
     tdecl = []
     T = {"name": "T", "locations": [{"id": "id0", "name": "A"}, {"id": "id1", "name": "B"}], "init": "id0",
          "edges": [{"src": "id0", "dst": "id1"}]}
@@ -83,7 +84,7 @@ def model_of(m, reorder=False):
     templates = [T, U]
     if reorder:
         templates = [U, T]
-        gdecl = gdecl[2:] + [gdecl[1], gdecl[0]]      # feature declarations first (internal order kept), base lines swapped
+        gdecl = [gdecl[0]] + gdecl[2:] + [gdecl[1]]   # the first base line stays first (a placement may refer to its constants); then the feature declarations, the clocks last
         if system == "system T, U;":
             system = "system U, T;"
     return {"decl": "\n".join(gdecl), "templates": templates, "system": system}
@@ -98,7 +99,7 @@ def pair_model(p):
     place(p["a"], TA, ga, ta)
     place(p["b"], TB, gb, tb)
     TA["decl"], TB["decl"] = "\n".join(ta), "\n".join(tb)
-    base = ["int i; bool b; double d;", "clock x; hybrid clock h;"]
+    base = ["int i; bool b; double d; const double cd = 1.5; meta double md; const double cda[2] = {0.5, 1.5};", "clock x; hybrid clock h;"]
     sysl, procs = [], []
     for nm, T, m in (("TA", TA, p["a"]), ("TB", TB, p["b"])):
         if m.get("inst") == "full":
